@@ -12,6 +12,11 @@ CHECKS = {
         text="Theorem C01_sound (no axioms): for every function body, oracle (condition values, raising calls, handler matches, swallowing context managers, iterator lengths) and fuel, a statement whose marker executes is never among the statements the model reports dead. Every run: generated modules using every construct of the quantifier are analysed by pyscn and executed by CPython under the same oracles; (1) no executed marker lies in a reported dead range (the property itself), (2) Flow.v's dead statements = lines covered by pyscn's ranges, (3) PySem.v traces = CPython traces.",
         note="Flow.v is a hand-written abstraction of cfg_builder.go+reachability.go+dead_code.go (statement level: finding ranges are compared per statement line, block boundaries are not modelled); generators/async scheduling/exceptions raised by non-marker code are outside the semantics; tree-sitter and ast_builder.go are exercised end-to-end, not modelled.",
         design="5 C01, 4.2, 4.5"),
+    "C16": dict(
+        technique="Coq proofs that the models of the section summaries, filters, risk levels and the unified summary projection (service/*_service.go, calculateSummary) equal their recomputation-from-items specs; bucket boundaries/operators regenerated from the Go AST; ties: real generateSummary/filter functions on synthetic item lists, every number of real JSON reports recomputed from the items; formats compared in-process and via the CLI (differential test)",
+        text="Props/C16.v (19 theorems, no axioms): complexity/CBO/LCOM/dead-code/clone summaries exact, extrema meaning, top-N lists, distribution partitions the items, bucket labels, risk counts sum and match thresholds, filters sound and complete (output = filter of the echoed predicate), unified summary is a projection. Each run: ~1000 synthetic item lists through the real summary/filter code vs model vs spec; 31 JSON reports of generated projects with ~4300 numbers recomputed from their own items; ~850 in-process renders (JSON = YAML as data, CSV/text/HTML headline numbers = JSON, all formats written incl. nil sections); ~70 CLI runs.",
+        note="partial: encoding/json, yaml.v3, encoding/csv, html/template are not modelled - the format clauses are a differential test, not a proof. C16-F1 (severity counts before the filter) repaired; C16-F2 (system.Summary never populated) open. CLI cross-run comparison is skipped when two runs of the analysis differ.",
+        design="5 C16"),
     "C17": dict(
         technique="Coq proof per option that the modelled merge chain (flag defaults, Flags().Changed wrappers, hard-wired request values, sentinel merges, pointer/>0 key tests) equals flag-else-file-else-default, or a refutation with the failing cell plus a partial theorem; config discovery model vs nearest-file spec; constants regenerated from the Go AST; 8-cell CLI matrix per option, discovery layouts, pyscn-init differential",
         text="Props/C17.v (29 theorems, no axioms): full for min_severity, min_cbo, complexity/lcom thresholds, check --max-complexity, explicit --config, .pyscn.toml over pyproject.toml in one directory, nearest file for single-kind chains; refuted + partial for analyze min_complexity and [cbo] thresholds (F6), clone threshold 0 in file (F27). Every run: ~240 CLI runs (option matrix, 87 discovery layouts, pyscn init differential) decided against the spec eff/spec_resolve and tied to the model.",
